@@ -11,7 +11,31 @@ import (
 // transactions have no effect (property C05).  Application hashes are not compared: a failed
 // delivery may leave an empty receiver account behind, which no query can tell from an absent one.
 func ForkDelete(h *History, scratch, label string) (diffs []string, deleted int, err error) {
-	return forkDeleteIf(h, scratch, label, func(string) bool { return true })
+	return forkDeleteIf(h, scratch, label, func(int, int, string) bool { return true })
+}
+
+// ForkDeleteFirstPerBlock removes only the FIRST failed transaction of every block.  Removing all
+// failed transactions together hides an effect of one failed transaction on another transaction
+// that then fails too (a limit consumed by a refused staking transaction refuses the next one):
+// both are gone from the second run.  Here the later one stays and must fail again.
+func ForkDeleteFirstPerBlock(h *History, scratch, label string) (diffs []string, deleted int, err error) {
+	seen := map[int]bool{}
+	return forkDeleteIf(h, scratch, label, func(bi, i int, note string) bool {
+		if seen[bi] {
+			return false
+		}
+		seen[bi] = true
+		return true
+	})
+}
+
+// ForkDeleteHalf removes every second failed transaction (a choice derived from the history's seed)
+func ForkDeleteHalf(h *History, scratch, label string) (diffs []string, deleted int, err error) {
+	x := uint64(h.Seed)*2654435761 + 12345
+	return forkDeleteIf(h, scratch, label, func(bi, i int, note string) bool {
+		x = x*6364136223846793005 + 1442695040888963407
+		return (x>>33)&1 == 1
+	})
 }
 
 // deliberatelyInvalid: notes of the generator's invalid stream (transactions built to be refused)
@@ -32,10 +56,10 @@ func deliberatelyInvalid(note string) bool {
 // transaction left behind (a consumed limit, a moved nonce), it succeeds here and shows as a difference
 // — which removing all failed transactions together would hide.
 func ForkDeleteInvalidOnly(h *History, scratch, label string) (diffs []string, deleted int, err error) {
-	return forkDeleteIf(h, scratch, label, deliberatelyInvalid)
+	return forkDeleteIf(h, scratch, label, func(_, _ int, note string) bool { return deliberatelyInvalid(note) })
 }
 
-func forkDeleteIf(h *History, scratch, label string, pred func(note string) bool) (diffs []string, deleted int, err error) {
+func forkDeleteIf(h *History, scratch, label string, pred func(bi, i int, note string) bool) (diffs []string, deleted int, err error) {
 	h2 := &History{Seed: h.Seed, Genesis: h.Genesis, WatchA: h.WatchA, WatchH: h.WatchH, StrTab: h.StrTab, OptTab: h.OptTab, Keys: h.Keys}
 	type pos struct{ b, i int }
 	var kept [][]int
@@ -43,7 +67,7 @@ func forkDeleteIf(h *History, scratch, label string, pred func(note string) bool
 		nb := &BlockSpec{Height: b.Height, Proposer: b.Proposer, Votes: b.Votes, Evidence: b.Evidence}
 		var idx []int
 		for i, t := range b.Txs {
-			if bi < len(h.Obs) && i < len(h.Obs[bi].Delivers) && h.Obs[bi].Delivers[i].Code != 0 && pred(t.Spec.Note) {
+			if bi < len(h.Obs) && i < len(h.Obs[bi].Delivers) && h.Obs[bi].Delivers[i].Code != 0 && pred(bi, i, t.Spec.Note) {
 				deleted++
 				continue
 			}
